@@ -25,6 +25,9 @@ Proof. intros Hp s s' b Hs H. apply p_map_ok in H as (a & H & _). eapply Hp; eas
 Lemma Prog_alt {A} (p q : parser A) : Prog p -> Prog q -> Prog (p_alt p q).
 Proof. intros Hp Hq s s' a Hs H. apply p_alt_ok in H as [H|[_ H]]; [eapply Hp | eapply Hq]; eassumption. Qed.
 
+Lemma Prog_restore {A} (p : parser A) : Prog p -> Prog (p_restore p).
+Proof. intros Hp s s' a Hs H. apply p_restore_ok in H. eapply Hp; eassumption. Qed.
+
 Lemma Prog_info {A} (p : parser A) : Prog p -> Prog (p_info p).
 Proof.
   intros Hp s s' a Hs H. apply p_info_ok in H as (s1 & H & -> & _).
@@ -110,7 +113,7 @@ Ltac prog_step :=
   first
   [ assumption
   | apply Prog_fuel
-  | apply Prog_map | apply Prog_alt | apply Prog_info | apply Prog_ref
+  | apply Prog_map | apply Prog_restore | apply Prog_alt | apply Prog_info | apply Prog_ref
   | apply Prog_tag | apply Prog_ignore1
   | apply Prog_pair_comments
   | apply Prog_pair_l; [ | solve [fwd_solve Hs0] | solve [fwd_solve Hs0] ] ].
